@@ -2161,7 +2161,8 @@ fn gen_c08(r: &mut Rng, seed: u64) -> Scenario {
         for i in 0..nu {
             let m = &b.modules[r.below(b.modules.len() as u64) as usize];
             let (start, size, kind) = match r.below(3) {
-                0 if m.base != EXE_BASE => (m.base, m.image.mapped_len, "containing"),
+                // (the caller may describe the main executable itself: its record then takes the first place)
+                0 if m.base != EXE_BASE || i == 0 => (m.base, m.image.mapped_len, if m.base == EXE_BASE { "containing-executable" } else { "containing" }),
                 1 if m.base != EXE_BASE => (m.base + 0x1000, m.image.mapped_len, "partial"),
                 _ => (0x6100_0000_0000 + i * 0x100000, 0x4000, "disjoint"),
             };
